@@ -185,6 +185,10 @@ def check(case, st):
                 forms = []
                 if D:
                     forms.append(("normalize", lambda: qv.utils.normalize(M, value)))
+                    # the same model with numpy-typed coefficients (what subvalue / subgraph hand back)
+                    import numpy as _np
+                    Mnp = type(M)({k: (_np.int64(v) if float(v) == int(v) else _np.float64(v)) for k, v in M.items()})
+                    forms.append(("normalize-numpy-coefficients", lambda: qv.utils.normalize(Mnp, value)))
                 if ismodel:
                     def meth():
                         C = M.copy()
